@@ -61,6 +61,15 @@ def const_eval(node, env=None):
                 return f()
         if isinstance(a, str) and isinstance(b, str) and isinstance(node.op, ast.Add):
             return a + b
+        if isinstance(a, (int, float)) and isinstance(b, (int, float)) and not isinstance(a, bool) and not isinstance(b, bool):
+            if isinstance(node.op, ast.Add):
+                return a + b
+            if isinstance(node.op, ast.Sub):
+                return a - b
+            if isinstance(node.op, ast.Mult):
+                return a * b
+            if isinstance(node.op, ast.Div) and b:
+                return a / b
     if isinstance(node, ast.Tuple):
         return tuple(const_eval(e, env) for e in node.elts)
     raise ValueError('not a constant expression')
